@@ -385,7 +385,7 @@ impl SubCheck for Harness {
         "register_harness_histories"
     }
     fn cases(&self, tier: Tier) -> u32 {
-        tier.pick(400, 8000)
+        tier.pick(800, 12000)
     }
     fn strategy(&self, _tier: Tier) -> BoxedStrategy<HarnessCase> {
         let server = (0u8..4, 0u8..3, proptest::bool::weighted(0.3)).prop_map(|(put_mode, get_mode, wrong_value)| ServerDesc { put_mode, get_mode, wrong_value });
